@@ -1,5 +1,7 @@
 
 #include <ctype.h>
+#include <errno.h>
+#include <math.h>
 #include <stdlib.h>
 
 #include "convert.h"
@@ -25,7 +27,12 @@ extern int mpt_cldouble(long double *val, const char *src, const long double ran
 	if (!*src) {
 		return 0;
 	}
+	errno = 0;
 	tmp = strtold(src, &end);
+	/* finite numeral beyond the range of the type */
+	if (errno == ERANGE && (tmp == HUGE_VALL || tmp == -HUGE_VALL)) {
+		return MPT_ERROR(BadValue);
+	}
 	
 	if (end == src) {
 		/* accept space as empty string */
